@@ -102,7 +102,10 @@ class PITFrozenFeaturesMasker(PITFeaturesMasker):
                  keep_alive_channels: int = 1):
         super(PITFrozenFeaturesMasker, self).__init__(
                 out_channels, trainable=trainable, keep_alive_channels=keep_alive_channels)
-        self.alpha.requires_grad = False
+        # a frozen mask is a constant: keep it in the state_dict, but not among the parameters
+        frozen_alpha = self.alpha.detach().clone()
+        del self.alpha
+        self.register_buffer('alpha', frozen_alpha)
         self.register_buffer('_fixed_alpha', torch.ones(self.out_channels, dtype=torch.float32))
 
     @property
